@@ -390,30 +390,38 @@ def run_on(repo, names):
     return {'__error__': [p.stdout[-300:], p.stderr[-800:]]}
 
 
+def one_mutant(scratch, m):
+  mid, f, old, new, names = m
+  repo = os.path.join(scratch, mid)
+  shutil.copytree(os.path.join(os.environ.get('VERIF_REPO', '/repo'), 'malt'), os.path.join(repo, 'malt'))
+  try:
+    path = os.path.join(repo, f)
+    src = open(path).read()
+    if src.count(old) != 1:
+      return False, 'SKIP %s: pattern occurs %d times' % (mid, src.count(old))
+    open(path, 'w').write(src.replace(old, new))
+    res = run_on(repo, [n[3:] if n.startswith('ok:') else n for n in names])
+    # 'ok:<contract>': a harmless edit -- the contract must still be proved (no false alarm)
+    ok = all(res.get(n[3:], ['?'])[0] == 'proved' if n.startswith('ok:') else res.get(n, ['?'])[0] == 'refuted'
+             for n in names) if names else True
+    return ok, '%s %s %s' % ('caught ' if ok else 'MISSED ', mid,
+                             {k: (v[0], v[2]) for k, v in res.items()} if '__error__' not in res else res)
+  finally:
+    shutil.rmtree(repo, ignore_errors=True)
+
+
 def main():
+  import concurrent.futures
   flt = sys.argv[1] if len(sys.argv) > 1 else ''
   bad = 0
   scratch = tempfile.mkdtemp(prefix='verif_selftest_')
+  todo = [m for m in MUTANTS if not flt or flt in m[0]]
   try:
-    for mid, f, old, new, names in MUTANTS:
-      if flt and flt not in mid:
-        continue
-      repo = os.path.join(scratch, mid)
-      shutil.copytree(os.path.join(os.environ.get('VERIF_REPO', '/repo'), 'malt'), os.path.join(repo, 'malt'))
-      path = os.path.join(repo, f)
-      src = open(path).read()
-      if src.count(old) != 1:
-        print('SKIP %s: pattern occurs %d times' % (mid, src.count(old)))
-        bad += 1
-        continue
-      open(path, 'w').write(src.replace(old, new))
-      res = run_on(repo, [n[3:] if n.startswith('ok:') else n for n in names])
-      # 'ok:<contract>': a harmless edit -- the contract must still be proved (no false alarm)
-      ok = all(res.get(n[3:], ['?'])[0] == 'proved' if n.startswith('ok:') else res.get(n, ['?'])[0] == 'refuted'
-               for n in names) if names else True
-      print('%s %s %s' % ('caught ' if ok else 'MISSED ', mid, {k: (v[0], v[2]) for k, v in res.items()} if '__error__' not in res else res))
-      bad += 0 if ok else 1
-      shutil.rmtree(repo)
+    # several mutants at a time (each is one sequential verification in its own interpreter)
+    with concurrent.futures.ThreadPoolExecutor(max_workers=int(os.environ.get('SELFTEST_JOBS', '6'))) as ex:
+      for ok, line in ex.map(lambda m: one_mutant(scratch, m), todo):
+        print(line, flush=True)
+        bad += 0 if ok else 1
   finally:
     shutil.rmtree(scratch, ignore_errors=True)
   print('selftest: %d problems' % bad)
